@@ -1045,7 +1045,7 @@ def main():
                       'Type 4: the theorems are about the reader above IsoDepInitiator.exchange (whole APDUs answered or failed); '
                       'the block layer is covered by C12 (termination for a responder that uses at most W waiting time extensions / '
                       'chained blocks per exchange) plus the WTX-without-WTXM repair modelled in TagReadAnyB.pcd_absorb_any']
-    ck.coq(gen=[], targets=['Proofs/TagSafeAct.vo', 'Proofs/TagSafeTlv.vo', 'Proofs/TagSafeCmd.vo', 'Proofs/TagSafeBlk.vo', 'Proofs/TagSafeDep.vo'], props='C08')
+    ck.coq(gen=[], targets=['Proofs/TagSafeAct.vo', 'Proofs/TagSafeTlv.vo', 'Proofs/TagSafeCmd.vo', 'Proofs/TagSafeIface.vo', 'Proofs/TagSafeBlk.vo', 'Proofs/TagSafeDep.vo'], props='C08')
     mr = ck.model()
     if mr is None:
         ck.finish()
